@@ -38,7 +38,8 @@ impl Read for Gen {
     }
 }
 
-fn write_archive<W: Write>(par: &Par, dest: W, total: u64, nfiles: u64, oneblock: bool) -> (W, u64) {
+fn write_archive<W: Write>(par: &Par, dest: W, total: u64, nfiles: u64, kind: &str) -> (W, u64) {
+    let oneblock = kind == "oneblock";
     let mut cfg: ArchiveWriterConfig = archive::writer_config(par);
     cfg.set_layers(par.layers());
     let mut w = ArchiveWriter::from_config(dest, cfg).expect("writer");
@@ -46,7 +47,9 @@ fn write_archive<W: Write>(par: &Par, dest: W, total: u64, nfiles: u64, oneblock
     if nfiles <= 1 {
         let id = w.start_file("big").unwrap();
         // "oneblock": the whole file handed over in one call (what add_file / `mlar create` do): one FileContent block
-        let piece = if oneblock { total.max(1) } else { 1 << 20 };
+        // "smallpieces": SIZES of the appends - a journal written record by record (1 000 bytes per call, far below every
+        // buffer of the readers): as many content blocks as records
+        let piece = if oneblock { total.max(1) } else if kind == "smallpieces" { 1000 } else { 1 << 20 };
         let mut left = total;
         let mut g = Gen { i: par.seed, left: total };
         while left > 0 {
@@ -85,20 +88,23 @@ pub fn main(args: &[String]) {
     let stacks = ["raw", "comp", "enc", "comp+enc"];
     for st in stacks {
         let par = Par::from_json(&json!({"stack": st, "seed": 3, "level": 1}));
-        for (kind, nfiles) in [("stream", 1u64), ("oneblock", 1), ("manyfiles", 2000)] {
+        for (kind, nfiles) in [("stream", 1u64), ("oneblock", 1), ("smallpieces", 1), ("manyfiles", 2000)] {
             for mib in &sizes {
                 if kind == "manyfiles" && *mib != sizes[0] {
                     continue;
                 }
+                if kind == "smallpieces" && *mib != sizes[0] && mib != sizes.last().unwrap() {
+                    continue;       // the smallest and the largest size are enough to see growth
+                }
                 let total = mib << 20;
                 // ---- write: generator -> counting sink
                 let base = alloc::reset_peak();
-                let (sink, runs) = write_archive(&par, CountSink(0), total, nfiles, kind == "oneblock");
+                let (sink, runs) = write_archive(&par, CountSink(0), total, nfiles, kind);
                 let peak = alloc::peak().saturating_sub(base);
                 tw.push(&json!({"ev": "mem", "op": format!("write-{kind}"), "stack": st, "mib": mib, "peak": peak, "files": nfiles, "runs": runs, "out": sink.0}));
                 // ---- the same archive in a file, as input of repair and linear extraction
                 let path = format!("{tmpdir}/mem-{st}-{kind}-{mib}.mla");
-                let (f, _) = write_archive(&par, std::io::BufWriter::new(std::fs::File::create(&path).unwrap()), total, nfiles, kind == "oneblock");
+                let (f, _) = write_archive(&par, std::io::BufWriter::new(std::fs::File::create(&path).unwrap()), total, nfiles, kind);
                 drop(f);
                 let base = alloc::reset_peak();
                 {
